@@ -161,6 +161,7 @@ class Result:
         self.sets = collections.defaultdict(set)
         self.violations = []
         self.state_hists = []     # one representative history per distinct state
+        self.closed = False       # the search reached a fixpoint: no unexplored state is left at any depth
         self.dead = 0
 
     def merge_into(self, other):
@@ -220,6 +221,8 @@ def bfs(spec, conf, alphabet, depth, seeds=(), seen=None, keep_states=False, wor
                     if keep_states:
                         R.state_hists.append(hist)
             R.per_depth.append(len(new_states))
+            if not frontier:
+                R.closed = True      # every reachable state over this alphabet has been expanded
             if d >= depth or not frontier:
                 break
             # phase A: every transition out of the frontier
